@@ -5,12 +5,40 @@ TRUSTED = []
 ASSUMPTIONS = []
 EXPLANATION = ""
 
+_BW_FP = {"truncate": "stub_truncate", "destroy": "stub_unreachable_destroy",
+          "get_size": "stub_unreachable_get_size", "write_at": "stub_unreachable_write_at"}
+
+
+_BP_FP = {"read_at": "stub_read_at", "do_block": "stub_do_block",
+          "*": "stub_unreachable_destroy"}
+
+
+def _shapes(nb, tier, label):
+    """every (history length, file start) with FS <= USED <= nb"""
+    return [dict(id="u%df%d" % (u, f), defines={"NB": nb, "USED": u, "FS": f},
+                 unwind=nb + 1, tier=tier, label=label, weight=(u - f) * f + 1)
+            for u in range(0, nb + 1) for f in range(0, u + 1)]
+
+
 HARNESSES = [
     dict(name="cmp_sound", file="cmp_sound.c", loops=["check_file_range_equal"],
-         label="proved", timeout=20, fp={"read_at": "stub_read_at"},
+         label="proved", timeout=300, fp={"read_at": "stub_read_at"},
          cases=[dict(id="scr8192", defines={"SCR": 8192}, tier="quick")]),
-    dict(name="blk_dedup", file="blk_dedup.c", label="bounded(blocks<=4)", timeout=15,
-         fp={"truncate": "stub_truncate", "destroy": "stub_unreachable_destroy",
-             "get_size": "stub_unreachable_get_size", "write_at": "stub_unreachable_write_at"},
-         cases=[dict(id="u%df%d" % (u, f), defines={"NB": 6, "USED": u, "FS": f}, unwind=7, tier="quick") for u,f in ((6,3),(6,2),(5,1),(4,2))]),
+    dict(name="cmp_bounded", file="cmp_sound.c", label="bounded(chunks<=3)", timeout=300,
+         fp={"read_at": "stub_read_at"},
+         cases=[dict(id="chunks3", defines={"SCR": 8, "BOUNDED_CHUNKS": 3}, unwind=4, tier="quick")]),
+    dict(name="blk_dedup", file="blk_dedup.c", label="bounded(blocks<=4)", timeout=900,
+         fp=_BW_FP, cases=_shapes(4, "quick", "bounded(blocks<=4)") +
+                         [c for c in _shapes(6, "thorough", "bounded(blocks<=6)")
+                          if c["defines"]["USED"] > 4]),
+    dict(name="frag_equal", file="frag_equal.c", label="bounded(in-flight list<=3)", timeout=120,
+         fp=_BP_FP,
+         cases=[dict(id="fl2_fb1_c1", defines={"NFL": 2, "HAVE_FB": 1, "CACHE": 1, "MODE": 0, "BS": 4096}, tier="quick")]),
+    dict(name="ht_search", file="ht_search.c", label="bounded(table size<=7)", timeout=150, object_bits=10,
+         mode="dfcc", replace=["util_fast_urem32"], cover=False,
+         fp={"key_equals_function": "stub_equals", "key_hash_function": "stub_hash",
+             "delete_function": "stub_delete"},
+         cases=[dict(id="si%d_%s" % (si, "search" if op == 0 else "insert"),
+                     defines={"SI": si, "OP": op}, unwind=(6 if si == 0 else 8), tier="quick")
+                for si in (0, 1) for op in (0, 1)]),
 ]
